@@ -369,11 +369,18 @@ pub fn build_client(prefix: &str, dtags: &str, dcid: &str, script: &str) -> Buil
         script: Arc::new(Mutex::new(parse_script(script))),
     };
     let h2 = handled.clone();
-    let mut b = StatsdClient::builder(&unhex0(prefix), sink).with_error_handler(move |e| {
+    // where in the builder chain the handler is set is decided by the case text: first, after the first default tag,
+    // after all default tags, or last (after the container id) - the order of builder calls must not matter
+    let pos = format!("{}{}{}{}", prefix, dtags, dcid, script).bytes().fold(0u32, |a, b| a.wrapping_mul(31).wrapping_add(b as u32)) % 4;
+    let mut handler = Some(move |e: MetricError| {
         h2.lock().unwrap().push(canon_err(&e));
     });
+    let mut b = StatsdClient::builder(&unhex0(prefix), sink);
+    if pos == 0 {
+        b = b.with_error_handler(handler.take().unwrap());
+    }
     if dtags != "-" {
-        for t in dtags.split(',') {
+        for (i, t) in dtags.split(',').enumerate() {
             let (h, r) = t.split_at(1);
             if h == "k" {
                 let (k, v) = r.split_once(':').expect("dtag");
@@ -381,10 +388,21 @@ pub fn build_client(prefix: &str, dtags: &str, dcid: &str, script: &str) -> Buil
             } else {
                 b = b.with_tag_value(unhex0(r));
             }
+            if pos == 1 && i == 0 {
+                b = b.with_error_handler(handler.take().unwrap());
+            }
+        }
+    }
+    if pos == 2 {
+        if let Some(h) = handler.take() {
+            b = b.with_error_handler(h);
         }
     }
     if dcid != "~" {
         b = b.with_container_id(unhex0(dcid));
+    }
+    if let Some(h) = handler.take() {
+        b = b.with_error_handler(h);
     }
     Built {
         client: b.build(),
